@@ -23,3 +23,30 @@ func VerifSmokeFloatTrans() {
 		zzverif.Assert(a.Compare(c) == 0, "eqtrans")
 	}
 }
+
+func VerifSmokeFloatLe() {
+	a := NewFloat(zzverif.Float64("a"))
+	b := NewFloat(zzverif.Float64("b"))
+	c := NewFloat(zzverif.Float64("c"))
+	ab := a.Compare(b)
+	bc := b.Compare(c)
+	ac := a.Compare(c)
+	if ab <= 0 && bc <= 0 {
+		zzverif.Assert(ac <= 0, "transitive-le")
+	}
+}
+
+func VerifSmokeFloat3() {
+	a := VerifNDScalar("a", zzverif.Choice("ak", 3), 1)
+	b := VerifNDScalar("b", zzverif.Choice("bk", 3), 1)
+	ab := a.Compare(b)
+	c := VerifNDScalar("c", zzverif.Choice("ck", 3), 1)
+	bc := b.Compare(c)
+	ac := a.Compare(c)
+	if ab <= 0 && bc <= 0 {
+		zzverif.Assert(ac <= 0, "transitive-le")
+		if ab == 0 && bc == 0 {
+			zzverif.Assert(ac == 0, "transitive-eq")
+		}
+	}
+}
